@@ -18,18 +18,18 @@ obsNoC == <<mstate, runRuleOK, phase, orderOK, inPhaseOK, st, itemOK, taken, sto
 \* skippable flags, registered flags, item counts, initial concurrencies, then for every kind of disturbance the
 \* number of finished task bodies after which it becomes enabled (spreads the disturbances over the run)
 GInit ==
-  /\ InitWith([p \in Pipes |-> FALSE], [p \in Pipes |-> FALSE], [p \in Pipes |-> K], [p \in Pipes |-> 1])
-  /\ pc0v = [p \in Pipes |-> 1]
+  /\ InitWith(NP, TT, [p \in 1..NP |-> FALSE], [p \in 1..NP |-> FALSE], [p \in 1..NP |-> K], [p \in 1..NP |-> 1])
+  /\ pc0v = [p \in 1..NP |-> 1]
   /\ hist = <<>> /\ nb = 0 /\ at = [k \in 1..5 |-> 0] /\ gph = 1
 
 GConf ==
   /\ gph <= 9 /\ gph' = gph + 1
-  /\ UNCHANGED <<obsNoC, ctlvars, budvars, hist, nb>>
+  /\ UNCHANGED <<obsNoC, ctlvars, budvars, hist, nb, np, tt>>
   /\ \/ gph = 1 /\ skp' \in [Pipes -> BOOLEAN] /\ UNCHANGED <<reg, kk, effc, pc0v, at>>
      \/ gph = 2 /\ reg' \in [Pipes -> BOOLEAN] /\ UNCHANGED <<skp, kk, effc, pc0v, at>>
      \/ gph = 3 /\ kk' \in [Pipes -> 0..K] /\ UNCHANGED <<skp, reg, effc, pc0v, at>>
      \/ gph = 4 /\ effc' \in [Pipes -> 1..2] /\ pc0v' = effc' /\ UNCHANGED <<skp, reg, kk, at>>
-     \/ gph >= 5 /\ (\E v \in 0..(NP * K * T) : at' = [at EXCEPT ![gph - 4] = v]) /\ UNCHANGED <<skp, reg, kk, effc, pc0v>>
+     \/ gph >= 5 /\ (\E v \in 0..(NP * K * TT) : at' = [at EXCEPT ![gph - 4] = v]) /\ UNCHANGED <<skp, reg, kk, effc, pc0v>>
 At(k) == at[CHOOSE n \in 1..5 : Kinds[n] = k]
 
 Keep == UNCHANGED <<hist, nb, at, pc0v, gph>>
